@@ -71,6 +71,17 @@ func resumeThread(L *LState, wrapped bool) int {
 		L.Push(LString(msg))
 		return 2
 	}
+	if th.stack.IsEmpty() {
+		// the body was a Go function that yielded (coroutine.wrap(coroutine.yield)): it
+		// has no frame to continue, the values it is resumed with are its results
+		th.kill()
+		if wrapped {
+			L.Remove(1)
+		} else {
+			L.Replace(1, LTrue)
+		}
+		return L.GetTop()
+	}
 	th.wrapped = wrapped
 	if err := L.enterThread(th, func() {
 		if !th.isStarted() {
